@@ -357,6 +357,25 @@ func (a *analysis) walkExpr(fn *funcInfo, e ast.Expr, held map[string]string, wr
 		a.walkExpr(fn, x.X, held, false)
 		return
 	case *ast.CallExpr:
+		// a closure handed to a call made WHILE locks are held may be run by the callee right away (a timer hook that
+		// fires a zero-delay callback inline, a collector invoked synchronously …): every lock the closure takes is then
+		// taken under the held ones — including the very same lock (a self-edge: re-entrancy on a non-reentrant mutex)
+		if len(held) > 0 {
+			for _, arg := range x.Args {
+				if lit, ok := arg.(*ast.FuncLit); ok {
+					ast.Inspect(lit.Body, func(n ast.Node) bool {
+						if c, ok := n.(*ast.CallExpr); ok {
+							if lock, op, ok := a.lockCall(fn, c); ok && (op == "Lock" || op == "RLock") {
+								for h := range held {
+									a.edges[h+">"+lock] = true
+								}
+							}
+						}
+						return true
+					})
+				}
+			}
+		}
 		// intra-type call: record the held set for the callee's entry
 		if sel, ok := x.Fun.(*ast.SelectorExpr); ok {
 			if id, ok := sel.X.(*ast.Ident); ok && id.Name == fn.recvName && fn.recvType != "" {
